@@ -1,5 +1,6 @@
 // CHILD-OF: src/contract.rs
-// ENCODES: (shared environment for the ITS harness files: spec stubs and seeding; no harness of its own)
+// ROBUST: names no storage key/value type of the service (the storage-naming seeding helpers live in its_seed.rs)
+// ENCODES: (shared environment for the ITS harness files: spec stubs and recorders; no harness of its own)
 // Spec stubs used by its_*.rs:
 //   GatewaySpec.validate_message / call_contract  (proven against the real gateway: c02_validate_message_step, c13_call_contract_*)
 //   GasServiceSpec.pay_gas                         (proven: c14_pay_gas)
@@ -21,9 +22,6 @@ pub fn gateway_addr() -> Address {
 }
 pub fn gas_addr() -> Address {
     Address(6)
-}
-pub fn k(d: &DataKey) -> Val {
-    d.into_val(&Env)
 }
 pub fn hub_chain(env: &Env) -> String {
     String::from_str(env, "axelar")
@@ -59,18 +57,6 @@ pub fn any_chain_arg(c: &Cfg) -> String {
     } else {
         any::string(2)
     }
-}
-pub fn seed_trusted(chain: &String, trusted: bool) {
-    model::storage_set_if(trusted, &its(), 1, &k(&DataKey::TrustedChain(chain.clone())), &Val::VOID);
-}
-pub fn is_trusted(chain: &String) -> bool {
-    model::storage_has(&its(), 1, &k(&DataKey::TrustedChain(chain.clone())))
-}
-pub fn seed_token(id: &BytesN<32>, present: bool, addr: &Address, ty: TokenManagerType) {
-    model::storage_set_if(present, &its(), 1, &k(&DataKey::TokenIdConfigKey(id.clone())), &model::val_of(&TokenIdConfigValue { token_address: addr.clone(), token_manager_type: ty }));
-}
-pub fn token_config(id: &BytesN<32>) -> Option<Val> {
-    model::storage_get(&its(), 1, &k(&DataKey::TokenIdConfigKey(id.clone())))
 }
 pub fn any_manager_type() -> TokenManagerType {
     if kani::any() {
@@ -348,5 +334,23 @@ pub fn rec_call_contract(env: &Env, contract: &Address, caller: &Address, destin
             Some(hub) => *contract == gateway_addr() && *caller == its() && *destination_chain == hub_chain(env) && *destination_address == *hub && PG_CALLS == 1,
             None => false,
         };
+    }
+}
+
+/// the single message announced to the hub, if exactly one was encoded, paid for and sent
+pub fn announced(env: &Env, hub: &String) -> Option<(String, Message)> {
+    // both the gas payment and the gateway call must carry the single encoded payload
+    unsafe {
+        if ENC_CALLS != 1 || PG_CALLS != 1 || CC_CALLS != 1 || !PG_OK || !CC_OK {
+            return None;
+        }
+        let tok = Bytes::from_array(env, &[0xAB, 1]);
+        if PG_PAYLOAD != Some(tok.clone()) || CC_PAYLOAD != Some(tok) {
+            return None;
+        }
+        match &ENC_MSG {
+            Some(HubMessage::SendToHub { destination_chain, message }) => Some((destination_chain.clone(), message.clone())),
+            _ => None,
+        }
     }
 }
